@@ -27,6 +27,7 @@ from typedpy.serialization.versioned_mapping import convert_dict
 
 from .. import dump, gen, aliasprobe as AP
 from . import construct as C
+from . import alias_api as API
 
 SCALAR_KINDS = ("integer", "number", "float", "string", "boolean", "enumCls", "enumLit", "noneF")
 INPUT_OPS = ("construct", "setattr", "deserialize", "derive")
@@ -50,8 +51,10 @@ def shape_cat(s):
         return s["s"]
     if "c" in s:
         return "coll"
-    if "w" in s:
+    if "w" in s or "wn" in s:
         return "wrap"
+    if "o" in s:
+        return shape_cat(s["o"])
     k = s["k"]
     return "struct" if k in ("struct", "root") else "inline" if k == "inline" else "coll"
 
@@ -99,9 +102,30 @@ def is_container_kind(d):
     return k not in SCALAR_KINDS
 
 
+def value_classes(d):
+    """Python value classes a declaration takes, at the precision of the model's `tagFits` (Sem/Alias.lean):
+    "seq" (list / deque / set / tuple — Array, Deque, Set and Tuple fields all take a list), "map" (dict or
+    Structure instance — Map and structure fields), "atom" (anything else)"""
+    k = d["k"]
+    if k in ("anyOf", "oneOf", "allOf"):
+        out = set()
+        for x in d["fields"]:
+            out |= value_classes(x)
+        return out
+    if k in ("seqAny", "seqOf", "seqPos", "setAny", "setOf", "tupleOf", "tuplePos"):
+        return {"seq"}
+    if k in ("mapAny", "mapOf", "struct"):
+        return {"map"}
+    if k in ("anything", "notF"):
+        return {"seq", "map", "atom"}
+    return {"atom"}
+
+
 def normalize_wrappers(d):
-    """make the option a multi-field wrapper takes for a container value unambiguous: scalar options plus at most
-    one container option, no Anything next to other options (generator post-processing, in place)"""
+    """which option of a multi-field wrapper takes a value is decided by the MODEL from the value's shape (first
+    option the value fits: `Shape.wrapN`), so several container options are fine; what the generator still ensures
+    is that the shape decides: at most one option per container value class ("seq", "map"), and no NotField option
+    (whether a NotField takes a value is a validation question).  Generator post-processing, in place."""
     if isinstance(d, list):
         for x in d:
             normalize_wrappers(x)
@@ -109,21 +133,16 @@ def normalize_wrappers(d):
     if not isinstance(d, dict):
         return d
     if d.get("k") in ("anyOf", "oneOf", "allOf"):
-        opts, seen_container = [], False
+        opts, seen = [], set()
         for x in d["fields"]:
-            if x["k"] in ("anything", "notF"):
+            if x["k"] in ("notF", "anything"):
                 continue
-            if is_container_kind(x):
-                if seen_container:
-                    continue
-                seen_container = True
+            vc = value_classes(x) - {"atom"}
+            if vc & seen:
+                continue
+            seen |= vc
             opts.append(x)
-        opts = opts or [d["fields"][0]]
-        # `AnyOf.serialize` delegates to its last non-None option, `AllOf.serialize` to its first: put the container
-        # option there, so that a container value is always handed to the option that declares it
-        cont = [x for x in opts if is_container_kind(x)]
-        rest = [x for x in opts if not is_container_kind(x)]
-        d["fields"] = (cont + rest) if d["k"] == "allOf" else (rest + cont)
+        d["fields"] = opts or [d["fields"][0]]
     for v in d.values():
         normalize_wrappers(v)
     return d
@@ -170,6 +189,10 @@ def merge_shapes(a, b):
             return {"c": a["c"], "item": merge_shapes(a["item"], b["item"])}
         if "w" in a and "w" in b and a["w"] == b["w"]:
             return {"w": a["w"], "inner": merge_shapes(a["inner"], b["inner"])}
+        if "wn" in a and "wn" in b and a["wn"] == b["wn"] and len(a["opts"]) == len(b["opts"]):
+            return {"wn": a["wn"], "pick": a["pick"], "opts": [merge_shapes(x, y) for x, y in zip(a["opts"], b["opts"])]}
+        if "o" in a and "o" in b:
+            return {"o": merge_shapes(a["o"], b["o"])}
     return a
 
 
@@ -179,6 +202,102 @@ def _item_shape(d, v, op):
     for e in els[1:]:
         sh = merge_shapes(sh, shape_for(d, e, op))
     return sh
+
+
+_DELEGATION = {}
+
+
+def delegated_option(k, fields):
+    """index of the option `<wrapper>.serialize` hands every value to ("first" when the source shows no fixed
+    delegation): AnyOf -> its last non-None option, AllOf -> its first option (read off multified_wrappers.py)"""
+    if not _DELEGATION:
+        from extract import aliasing as X
+        _DELEGATION.update(X.wrapper_delegation())
+    how = _DELEGATION.get(k, "first-fit")
+    if how == "first":
+        return 0
+    if how == "last-non-none":
+        idx = [i for i, x in enumerate(fields) if x["k"] != "noneF"]
+        return idx[-1] if idx else len(fields) - 1
+    if how == "first-non-none":
+        idx = [i for i, x in enumerate(fields) if x["k"] != "noneF"]
+        return idx[0] if idx else 0
+    if how == "last":
+        return len(fields) - 1
+    return "first"
+
+
+TAG_FITS = {"array": ("list", "deque"), "deque": ("list", "deque"), "arrayPos": ("list", "deque"), "dequePos": ("list", "deque"),
+            "set": ("set", "frozenset", "list"), "immSet": ("set", "frozenset", "list"),
+            "tuple": ("tuple", "list"), "tuplePos": ("tuple", "list"), "map": ("dict",),
+            "struct": ("inst", "dict"), "inline": ("inst", "dict"), "root": ("inst", "dict")}
+
+
+def py_fits(shape, v):
+    """mirror of `fits` (Sem/Alias.lean) on Python values — used ONLY to name the table site to blame in a finding
+    key and to see which site a witness exercises; the correspondence verdict comes from the model"""
+    if shape in ("any", "untyped"):
+        return True
+    if "s" in shape:
+        if AP.node_tag(v) is not None:
+            return False
+        code = AP.atom_code(v)
+        return code in (2, 3) if shape["s"] == "number" else code == 4 if shape["s"] == "string" else True
+    if "c" in shape or "k" in shape:
+        kind = shape.get("c") or shape["k"]
+        return AP.node_tag(v) in TAG_FITS.get(kind, ()) if kind in TAG_FITS else True
+    if "w" in shape:
+        return True
+    if "o" in shape:
+        return py_fits(shape["o"], v)
+    fit = [py_fits(x, v) for x in shape["opts"]]
+    return all(fit) if shape["wn"] == "allOf" else any(fit)
+
+
+def py_pick(shape, v):
+    opts = shape["opts"]
+    if shape["pick"] == "first":
+        return next((i for i, x in enumerate(opts) if py_fits(x, v)), len(opts))
+    i = shape["pick"]
+    return i if i < len(opts) and py_fits(opts[i], v) else len(opts)
+
+
+def _child(v, key):
+    if isinstance(v, Structure):
+        return v.__dict__.get(key)
+    if isinstance(v, dict):
+        for k, x in v.items():
+            if str(k) == key:
+                return x
+        return None
+    if isinstance(v, (list, tuple, collections.deque)):
+        return v[int(key)] if key.isdigit() and int(key) < len(v) else None
+    return None
+
+
+def resolve_shape(shape, v):
+    """the single-option shape the value selects (every `wn` node replaced by the `w` node of the option the value
+    fits, `o` nodes dropped): the form `site_chain` / `responsible_site` walk"""
+    if not isinstance(shape, dict):
+        return shape
+    if "s" in shape:
+        return shape
+    if "o" in shape:
+        return resolve_shape(shape["o"], v)
+    if "wn" in shape:
+        i = py_pick(shape, v)
+        if i >= len(shape["opts"]):
+            return {"w": shape["wn"], "inner": "untyped"}
+        return {"w": shape["wn"], "inner": resolve_shape(shape["opts"][i], v)}
+    if "w" in shape:
+        return {"w": shape["w"], "inner": resolve_shape(shape["inner"], v)}
+    if "c" in shape:
+        els = _elems(v) or [None]
+        item = resolve_shape(shape["item"], els[0])
+        for e in els[1:]:
+            item = merge_shapes(item, resolve_shape(shape["item"], e))
+        return {"c": shape["c"], "item": item}
+    return {"k": shape["k"], "fields": [[n, resolve_shape(fs, _child(v, n))] for n, fs in shape["fields"]]}
 
 
 def shape_for(d, v, op=None):
@@ -211,16 +330,13 @@ def shape_for(d, v, op=None):
     if k == "notF":
         return {"w": "notF", "inner": "untyped"}      # whatever a NotField lets through has no declared type
     if k in ("anyOf", "oneOf", "allOf"):
-        if op in OUTPUT_FIELD_OPS and k in ("anyOf", "allOf"):
-            # AnyOf.serialize hands the value to its LAST non-None option, AllOf.serialize to its FIRST option,
-            # whatever the value is; an option that does not fit the value falls back to Field.serialize (generic)
-            non_none = [x for x in d["fields"] if x["k"] != "noneF"] or d["fields"]
-            chosen = non_none[-1] if k == "anyOf" else d["fields"][0]
-            if not type_ok(chosen, v) or (AP.node_tag(v) is not None and not is_container_kind(chosen)):
-                return {"w": k, "inner": "untyped"}
-            return {"w": k, "inner": shape_for(chosen, v, op)}
-        opts = [x for x in d["fields"] if type_ok(x, v)] or d["fields"]
-        return {"w": k, "inner": shape_for(opts[0], v, op)}
+        # ALL options go to the model, which picks the first one the value fits (`Shape.wrapN`, Pick.firstFit).
+        # `AnyOf.serialize` / `AllOf.serialize` (fast serialization, <field>.serialize) hand the value to a FIXED option
+        # whatever the value is — which one is read off the source (extract/aliasing.wrapper_delegation)
+        pick = "first"
+        if op in OUTPUT_FIELD_OPS:
+            pick = delegated_option(k, d["fields"])
+        return {"wn": k, "pick": pick, "opts": [shape_for(x, v, op) for x in d["fields"]]}
     raise ValueError(f"shape_for: {k}")
 
 
@@ -235,8 +351,19 @@ def struct_shape(d, v, kind, result=None, op=None):
         else:
             fields.append([n, shape_for(fd, sub, op)])
     kept = None if result is None else set(result.__dict__)
-    fields += [[x, "untyped"] for x in _keys(v) if x not in names and (kept is None or x in kept)]
-    return {"k": kind, "fields": fields}
+    extras = [[x, "untyped"] for x in _keys(v) if x not in names and (kept is None or x in kept)]
+    if kind == "root" and d.get("immutable"):
+        # an immutable owner (ImmutableStructure: `Structure.__setattr__`; immutable=True fields: `Field.__set__` /
+        # `Field.__get__`) puts its defensive deep copy in front of every field: `Shape.owned`
+        fields = [[n, {"o": fs}] for n, fs in fields]
+        if d.get("immOwner") != "fields":
+            extras = [[n, {"o": fs}] for n, fs in extras]
+    return {"k": kind, "fields": fields + extras}
+
+
+def owned_field_shape(decl, sh):
+    """shape of ONE field of the class `decl` (setattr, <field>.serialize): behind the owner's copy if it is immutable"""
+    return {"o": sh} if decl.get("immutable") else sh
 
 
 def prune_extras(shape, snk):
@@ -246,6 +373,10 @@ def prune_extras(shape, snk):
         return shape
     if "w" in shape:
         return {"w": shape["w"], "inner": prune_extras(shape["inner"], snk)}
+    if "o" in shape:
+        return {"o": prune_extras(shape["o"], snk)}
+    if "wn" in shape:
+        return {"wn": shape["wn"], "pick": shape["pick"], "opts": [prune_extras(x, snk) for x in shape["opts"]]}
     if "c" in shape:
         el = _elems(snk)
         if not el:
@@ -258,7 +389,7 @@ def prune_extras(shape, snk):
         if isinstance(snk, Structure):
             kept = set(snk.__dict__)
             return {"k": shape["k"], "fields": [[n, prune_extras(fs, snk.__dict__.get(n))] for n, fs in shape["fields"]
-                                                if fs != "untyped" or n in kept]}
+                                                if fs not in ("untyped", {"o": "untyped"}) or n in kept]}
         if isinstance(snk, (list, tuple, collections.deque)):
             return {"k": shape["k"], "fields": [[n, prune_extras(fs, snk[int(n)] if n.isdigit() and int(n) < len(snk) else None)]
                                                 for n, fs in shape["fields"]]}
@@ -443,7 +574,7 @@ def build_imm_class(owner):
     cls = type("ImmOwner_" + owner, (ImmutableStructure if owner == "structure" else Structure,), body)
     _IMM_CACHE[owner] = inner
     decl = {"k": "struct", "name": cls.__name__, "required": [], "addl": True, "fields": copy.deepcopy(IMM_DECL_FIELDS),
-            "immutable": True}
+            "immutable": True, "immOwner": owner}
     return cls, decl
 
 
@@ -456,12 +587,109 @@ def imm_values(owner, as_doc, only=None):
             "tu": seq([1, [2]], 5),
             "ar": [seq([1]), seq({"z": [2]})],
             "mp": {"k": seq([1], seq([2]))},
+            "opt": [1, [2], {"k": [3]}],
             "extra_t": seq({"z": [1]}, [2])}
     if owner == "fields":
         vals.pop("extra_t")      # an undeclared key of a mutable Structure is no immutable field: shared by design
     if only:
         vals = {k: v for k, v in vals.items() if k in only}
     return vals
+
+
+# ------------------------------------------------------------------ trusted / short-cut entry points
+
+TRUSTED_ENTRIES = ("Deserializer", "function", "from_trusted_data", "from_trusted_kwargs", "trust_supplied_values")
+TRUSTED_MAPPERS = ("none", "rename", "lower", "camel")
+TRUSTED_SHAPES = ("flat", "byvalue", "optional", "enumarray", "nested", "many", "deep")
+
+
+def build_trusted(shape, mapper):
+    """hand-built classes for the trusted paths (`direct_trusted_mapping=True`, `from_trusted_data`,
+    `trust_supplied_values`): enum.Enum-backed Enum fields (by name / by value / optional / in an Array), nested
+    classes, arrays of nested classes, two levels of nesting x no mapper / a renaming dict / TO_LOWERCASE / TO_CAMELCASE.
+    Returns (class, document for the mapper-less key names)"""
+    import enum as _enum
+    import typedpy as T
+    from typedpy import mappers as M
+    Color = _enum.Enum("Color", {"RED": 1, "GREEN": 2})
+    Size = _enum.Enum("Size", {"small": "S", "large": "L"})
+
+    def with_mapper(body, renames):
+        if mapper == "rename":
+            body["_serialization_mapper"] = dict(renames)
+        elif mapper == "lower":
+            body["_serialization_mapper"] = M.TO_LOWERCASE
+        elif mapper == "camel":
+            body["_serialization_mapper"] = M.TO_CAMELCASE
+        return body
+    inner = type("TInner", (Structure,), with_mapper(
+        {"color": T.Enum[Color], "label": T.String(), "nums": T.Array[T.Integer], "_required": ["color"]}, {"label": "lbl"}))
+    key = (lambda k: k.upper() if mapper == "lower" else k)
+    ren = (lambda k, to: to if mapper == "rename" else key(k))
+    idoc = lambda c, **kw: dict({key("color"): c}, **{ren(k, "lbl") if k == "label" else key(k): v for k, v in kw.items()})
+    if shape == "flat":
+        cls = type("TFlat", (Structure,), with_mapper({"i": T.Integer(), "color": T.Enum[Color], "tags": T.Array[T.String],
+                                                       "_required": ["i", "color"]}, {"color": "colour"}))
+        doc = {key("i"): 1, ren("color", "colour"): "RED", key("tags"): ["a", "b"]}
+    elif shape == "byvalue":
+        cls = type("TByValue", (Structure,), with_mapper(
+            {"name": T.String(), "size": T.Enum(values=Size, serialization_by_value=True)}, {"size": "sz"}))
+        doc = {key("name"): "n", ren("size", "sz"): "L"}
+    elif shape == "optional":
+        cls = type("TOptional", (Structure,), with_mapper(
+            {"color": T.AnyOf[T.Enum[Color], T.NoneField], "size": T.Enum(values=Size, serialization_by_value=True),
+             "n": T.Integer(), "_required": ["n"]}, {"n": "num"}))
+        doc = {key("color"): "GREEN", key("size"): "S", ren("n", "num"): 3}
+    elif shape == "enumarray":
+        cls = type("TEnumArray", (Structure,), with_mapper(
+            {"colors": T.Array[T.Enum[Color]], "color": T.Enum[Color], "_required": ["colors"]}, {"colors": "cs"}))
+        doc = {ren("colors", "cs"): ["RED", "GREEN"], key("color"): "RED"}
+    elif shape == "nested":
+        cls = type("TNested", (Structure,), with_mapper({"inner": inner, "count": T.Integer()}, {"count": "cnt"}))
+        doc = {key("inner"): idoc("RED", label="a", nums=[1, 2]), ren("count", "cnt"): 2}
+    elif shape == "many":
+        cls = type("TMany", (Structure,), with_mapper({"many": T.Array[inner], "color": T.Enum[Color], "_required": ["many"]},
+                                                      {"many": "lots"}))
+        doc = {ren("many", "lots"): [idoc("GREEN"), idoc("RED", label="z", nums=[3])], key("color"): "GREEN"}
+    else:
+        mid = type("TMid", (Structure,), with_mapper({"inner": inner, "many": T.Array[inner], "size": T.Enum(values=Size)},
+                                                     {"size": "sz"}))
+        cls = type("TDeep", (Structure,), with_mapper({"mid": mid, "mids": T.Array[mid], "_required": ["mid"]}, {"mids": "ms"}))
+        mdoc = lambda: {key("inner"): idoc("RED", nums=[1]), key("many"): [idoc("GREEN", label="q")], ren("size", "sz"): "small"}
+        doc = {key("mid"): mdoc(), ren("mids", "ms"): [mdoc(), mdoc()]}
+    return cls, doc
+
+
+def trusted_situation(case):
+    shape, mapper, entry = case["trusted"]
+    cls, doc = build_trusted(shape, mapper)
+    if entry in ("from_trusted_data", "from_trusted_kwargs", "trust_supplied_values"):
+        # these take field names, not mapped keys, and already-typed values are the caller's business
+        cls, doc = build_trusted(shape, "none")
+    ignore = []
+
+    def call():
+        if entry == "Deserializer":
+            x = Deserializer(cls).deserialize(doc, direct_trusted_mapping=True)
+        elif entry == "function":
+            x = deserialize_structure(cls, doc, direct_trusted_mapping=True)
+        elif entry == "from_trusted_data":
+            x = cls.from_trusted_data(doc, ignore_props=ignore)
+        elif entry == "from_trusted_kwargs":
+            x = cls.from_trusted_data(None, **doc)
+        else:
+            cls.trust_supplied_values(True)
+            try:
+                x = cls(**doc)
+            finally:
+                cls.trust_supplied_values(False)
+        # reading the instance back is part of the history (lazy conversions would show up here)
+        try:
+            Serializer(x).serialize()
+        except Exception:
+            pass
+        return x, doc, lambda: ""
+    return Situation([doc, ignore], doc, "any", call)
 
 
 # ------------------------------------------------------------------ situations (one fresh world per call)
@@ -547,11 +775,13 @@ def _mapper_arg(case, decl):
 def oracle_only(case):
     """cases whose result the heap model does not describe (keys renamed by camel_case_convert): argument
     snapshots and the poke oracle only"""
-    return bool(case.get("camel"))
+    return bool(case.get("camel")) or bool(case.get("trusted"))
 
 
 def situation(case):
     op = case["op"]
+    if isinstance(case.get("trusted"), list):
+        return trusted_situation(case)
     if op == "convert":
         doc = copy.deepcopy(case["doc"])
         mappings = [_mapping_of(m) for m in case["mappings"]]
@@ -690,6 +920,10 @@ def situation(case):
         sit = Situation([doc, mapper], doc, shape, None)
 
         def call():
+            if case.get("trusted"):
+                x = Deserializer(cls).deserialize(doc, direct_trusted_mapping=True) if case.get("via") != "function" \
+                    else deserialize_structure(cls, doc, direct_trusted_mapping=True)
+                return x, doc, lambda: ""
             if case.get("via") == "function":
                 x = deserialize_structure(cls, doc, mapper=mapper, camel_case_convert=bool(case.get("camel")),
                                           keep_undefined=bool(case.get("keepUndefined", True)))
@@ -707,19 +941,22 @@ def situation(case):
     if op in ("fastSerialize", "fieldSerialize"):
         _make_nested_fast(ctx, cls)
     x = cls(**_kw(case, ctx))
+    for rk, rv in (case.get("raw") or []):
+        # a payload no option of a multi-field wrapper takes cannot be stored through validation: put it there directly
+        x.__dict__[rk] = dump.load_value(rv, ctx)
     fdecl = dict((n, f) for n, f in decl["fields"])
     if op == "setattr":
         name = case["field"]
         src = None
         if case.get("imm"):
-            value = imm_values(case["imm"], as_doc=False)["any" if name == "opt" else name]
+            value = imm_values(case["imm"], as_doc=False)[case.get("vkey") or ("any" if name == "opt" else name)]
         elif case.get("fromInstance"):
             # x.f = y.f: the value is the typed wrapper of another instance of the same class
             src = cls(**_kw(case, ctx))
             value = getattr(src, name)
         else:
             value = dump.load_value(case["value"], ctx)
-        shape = shape_for(fdecl[name], value) if name in fdecl else "untyped"
+        shape = owned_field_shape(decl, shape_for(fdecl[name], value) if name in fdecl else "untyped")
 
         def call():
             setattr(x, name, value)
@@ -756,7 +993,7 @@ def situation(case):
         name = case["field"]
         field = cls.get_all_fields_by_name()[name]
         internal = x.__dict__.get(name)
-        shape = shape_for(fdecl[name], internal, op)
+        shape = owned_field_shape(decl, shape_for(fdecl[name], internal, op))
 
         def call():
             doc = field.serialize(getattr(x, name))
@@ -768,6 +1005,8 @@ def situation(case):
 # ------------------------------------------------------------------ real code
 
 def run_impl(case):
+    if case["op"] == "api":
+        return API.run_api(case)
     try:
         sit = situation(case)
     except Exception as e:
@@ -775,7 +1014,7 @@ def run_impl(case):
     res = {"topKind": sit.top_kind}
     before = json.dumps(AP.deep_canon(sit.args), sort_keys=True, default=str)
     world0 = sit.world() if sit.world else None
-    cells, src = AP.heapify(sit.source)
+    cells, src = AP.heapify(sit.source, typed=True)
     graph = AP.object_graph(sit.source)
     index = {}
     # heapify and object_graph enumerate the same objects; addresses come from heapify's order
@@ -796,6 +1035,11 @@ def run_impl(case):
     if sit.world:
         res["world_same"] = sit.world() == world0
     res["shape"] = sit.shape
+    try:
+        res["rshape"] = resolve_shape(sit.shape, sit.source)
+    except Exception as e:
+        res["rshape"] = sit.shape
+        res["rshape_error"] = f"{type(e).__name__}: {e}"[:200]
     if not res["ok"]:
         return res
     gk = AP.object_graph(sink)
@@ -817,7 +1061,8 @@ def run_impl(case):
         _, vis, fp2 = s2.call()
         return vis, fp2
     try:
-        hits = AP.poke_oracle(make, limit=case.get("pokeLimit", 300))
+        # (the trusted paths store what they are given, by contract: only the argument snapshots are judged there)
+        hits = [] if case.get("trusted") else AP.poke_oracle(make, limit=case.get("pokeLimit", 300))
     except Exception as e:
         res["poke_error"] = f"{type(e).__name__}: {e}"[:300]
         hits = []
@@ -842,14 +1087,17 @@ def _heap_order(root):
 # ------------------------------------------------------------------ Lean side
 
 def immutable_output(case):
-    """an ImmutableStructure deep-copies what it is given and hands every value out through the deep-copying
-    accessor, which the heap model (one table for all classes) does not describe: oracle only for these"""
+    """the case's owner is immutable (an ImmutableStructure / a Structure of immutable=True fields): it deep-copies what
+    it is given and hands every value out through the deep-copying accessor (`Shape.owned` in the model); for such an
+    owner EVERY site is in the statement's scope, and sharing of objects that are themselves immutable is by design"""
     return bool(case.get("cls", {}).get("immutable") or case.get("imm")) and \
         case["op"] in OUTPUT_OPS + ("construct", "setattr", "deserialize")
 
 
 def line(case, impl):
-    if "cells" not in impl or immutable_output(case) or oracle_only(case):
+    if case["op"] == "api":
+        return {"suite": "alias", "skip": True}      # public entry points outside the heap model: snapshots only
+    if "cells" not in impl or oracle_only(case):
         return {"suite": "alias", "skip": True}
     return {"suite": "alias", "op": case["op"], "shape": impl["shape"], "cells": impl["cells"], "src": impl["src"],
             "topKind": impl.get("topKind", "root")}
@@ -865,6 +1113,8 @@ def visible_shape(case, impl):
 
 def judge(case, impl, model):
     fails = []
+    if case["op"] == "api":
+        return API.judge_api(case, impl)
     if "unbuildable" in impl:
         return None, fails
     op = case["op"]
@@ -875,6 +1125,8 @@ def judge(case, impl, model):
     if impl.get("world_same") is False:
         fails.append((f"other-class-changed:{op}", f"{op} on one class changed what ANOTHER class over the same field kinds "
                       f"maps to (schema / generated code of the sibling class differ before and after the call)"))
+    if case.get("trusted"):
+        return None, fails
     if model.get("skip") and not immutable_output(case) and not oracle_only(case):
         return None, fails
     if not model.get("skip") and model.get("argsSame") != impl.get("args_same"):
@@ -917,7 +1169,7 @@ def judge(case, impl, model):
                           [list(q) for q, _ in impl.get("poked", [])]
             prefixes = [vis_path[:n] for n in range(len(vis_path) + 1) if vis_path[:n] in known_paths]
             blame_path = prefixes[0] if prefixes else vis_path
-            site, chain = responsible_site(impl["shape"], blame_path, modes)
+            site, chain = responsible_site(impl.get("rshape", impl["shape"]), blame_path, modes)
             if site is None:
                 continue
             if not immutable_output(case) and not all(site_in_scope(op, k) for _, k, _ in chain):
@@ -937,6 +1189,8 @@ def judge(case, impl, model):
 
 def tags(case, impl, model):
     t = ["op:" + case["op"]]
+    if case["op"] == "api":
+        t.append("api:" + case["fn"])
     if "unbuildable" in impl:
         return t + ["unbuildable"]
     t.append("real:" + ("ok" if impl.get("ok") else "raises:" + str(impl.get("err"))))
@@ -988,6 +1242,9 @@ def _norm_key(k):
         return str(bool(k["f"][0]))
     if isinstance(k, dict) and "e" in k:
         return str(k["e"][1])          # an Enum key field turns the member's name into the member
+    if isinstance(k, dict) and "t" in k:
+        # a Tuple key field normalises every element the same way: ('M', GREEN) and (Size.M, GREEN) merge
+        return "(" + ",".join(str(_norm_key(x)) for x in k["t"]) + ")"
     return k if isinstance(k, str) else json.dumps(k, sort_keys=True, default=str)
 
 
@@ -1088,6 +1345,8 @@ def _gen_cases(rng, tier, n_classes):
         doc = SD.dedupe_doc({"m": [[k, SD.to_doc(fd.get(k), v)] for k, v in kw]})
         cases.append(dict(base, op="deserialize", doc=doc))
         cases.append(dict(base, op="deserialize", doc=doc, keepUndefined=False))
+        # the trusted short cut on the same class and document (only the argument snapshot is judged; ineligible classes raise)
+        cases.append(dict(base, op="deserialize", doc=doc, trusted=True, via=("function" if ci % 2 else "Deserializer")))
         # the mapper argument in each accepted form x camel_case_convert, class wrappers and function-level API
         form, camel = rng.choice(["dict", "list", "none"]), rng.random() < 0.5
         cases.append(dict(base, op="deserialize", doc=doc, via="function", mapper=form, camel=camel))
@@ -1223,10 +1482,48 @@ def field_sites():
              ("tuplePos", "none")]
     sites += [(k, c) for k in COLL_KINDS for c in COLL_CATS]
     sites += [(k, c) for k in WRAP_KINDS for c in WRAP_CATS + ["untyped"]]
-    return [s for s in sites if witness(*s) is not None]
+    sites = [s for s in sites if witness(*s) is not None or (s[0] in ("oneOf", "allOf") and s[1] == "untyped")]
+    return sites + [("owner", "none")]
+
+
+NOFIT = {"m": [["z", {"l": [1]}]]}       # a dict: fits neither Array[Integer] nor String
 
 
 def witness_case(op, kind, cat):
+    if kind == "owner":
+        # the defensive copy of an immutable owner in front of an Anything field (which on its own keeps / hands out
+        # the very object): constructor / Deserializer of an ImmutableStructure, first assignment of an immutable=True
+        # field, and the three output operations on an ImmutableStructure
+        base = {"suite": "alias", "witness": [op, kind, cat], "pokeLimit": 120}
+        if op in ("construct", "deserialize"):
+            return dict(base, op=op, imm="structure", only=["opt"])
+        if op == "setattr":
+            return dict(base, op=op, imm="fields", only=["ts"], field="opt", vkey="opt")
+        if op in ("serialize", "fastSerialize"):
+            return dict(base, op=op, imm="structure", only=["opt"], via="Serializer")
+        if op == "fieldSerialize":
+            return dict(base, op=op, imm="structure", only=["opt"], field="opt")
+        return None
+    if kind in ("anyOf", "oneOf", "allOf") and cat == "untyped" and not (kind == "anyOf" and op in OUTPUT_FIELD_OPS):
+        # no option takes the value: input operations are given one (a dict), output operations find one put into
+        # the instance behind validation's back (for AnyOf.serialize the existing witness below is of that kind already)
+        d = {"k": kind, "fields": [ARR_INT] if kind == "allOf" else [ARR_INT, STR]}
+        cls = _cls(f"W_{kind}_nofit", [["f", d]])
+        base = {"suite": "alias", "cls": cls, "witness": [op, kind, cat], "pokeLimit": 120}
+        ok = [["f", {"l": [1, 2]}]]
+        if op == "construct":
+            return dict(base, op=op, kw=[["f", NOFIT]])
+        if op == "setattr":
+            return dict(base, op=op, kw=ok, field="f", value=NOFIT)
+        if op == "deserialize":
+            return dict(base, op=op, doc={"m": [["f", NOFIT]]})
+        if op == "serialize":
+            return dict(base, op=op, kw=ok, via="Serializer", raw=[["f", NOFIT]])
+        if op == "fieldSerialize":
+            return dict(base, op=op, kw=ok, field="f", raw=[["f", NOFIT]])
+        if op == "fastSerialize":
+            return dict(base, op=op, kw=ok, raw=[["f", NOFIT]])
+        return None
     w = witness(kind, cat)
     if w is None:
         return None
@@ -1389,4 +1686,32 @@ def directed_cases():
     dflt = dict(_cls("Dflt", [["s", STR], ["n", INT]], required=["n"], addl=True), defaults=[["s", "x"]])
     out.append({"suite": "alias", "op": "toSchema", "cls": dflt})
     out.append({"suite": "alias", "op": "schemaToCode", "cls": dflt})
+    # multi-field wrappers with SEVERAL container options, elements of one collection taking different options
+    # (the model picks per element by the value's shape), behind AnyOf / OneOf / AllOf, every operation
+    mapd = {"k": "mapOf", "key": STR, "val": ARR_INT}
+    for wk in ("anyOf", "oneOf"):
+        w = {"k": wk, "fields": [ARR_INT, mapd, STR]}
+        het = _cls(f"Het_{wk}", [["xs", {"k": "seqOf", "item": copy.deepcopy(w)}], ["one", copy.deepcopy(w)],
+                                 ["m", {"k": "mapOf", "key": STR, "val": copy.deepcopy(w)}],
+                                 ["opt", {"k": "anyOf", "fields": [{"k": "noneF"}, mapd, ARR_INT]}]])
+        hkw = [["xs", {"l": [{"l": [1, 2]}, {"m": [["k", {"l": [3]}]]}, "s", {"l": []}]}], ["one", {"m": [["k", {"l": [1]}]]}],
+               ["m", {"m": [["a", {"l": [1]}], ["b", {"m": [["k", {"l": [2]}]]}], ["c", "s"]]}], ["opt", {"l": [7]}]]
+        for op in ("construct", "serialize", "fastSerialize"):
+            out.append({"suite": "alias", "op": op, "cls": het, "kw": hkw})
+        out.append({"suite": "alias", "op": "deserialize", "cls": het, "doc": {"m": hkw}})
+        for nm, v in hkw:
+            out.append({"suite": "alias", "op": "setattr", "cls": het, "kw": hkw, "field": nm, "value": v})
+            out.append({"suite": "alias", "op": "fieldSerialize", "cls": het, "kw": hkw, "field": nm})
+        # the same declarations owned by an ImmutableStructure
+        out.append({"suite": "alias", "op": "construct", "cls": dict(het, name=f"HetImm_{wk}", immutable=True), "kw": hkw})
+        out.append({"suite": "alias", "op": "serialize", "cls": dict(het, name=f"HetImm_{wk}", immutable=True), "kw": hkw})
+    # the trusted / short-cut entry points x classes with Enum fields, nested classes, arrays of nested classes x mappers
+    for shp in TRUSTED_SHAPES:
+        for mp in TRUSTED_MAPPERS:
+            for entry in ("Deserializer", "function"):
+                out.append({"suite": "alias", "op": "deserialize", "trusted": [shp, mp, entry]})
+        for entry in ("from_trusted_data", "from_trusted_kwargs", "trust_supplied_values"):
+            out.append({"suite": "alias", "op": "construct", "trusted": [shp, "none", entry]})
+    # every public entry point that no operation stream above exercises (harness/suites/alias_api.py)
+    out += API.api_cases()
     return out
